@@ -12,13 +12,26 @@
 # See the License for the specific language governing permissions and
 # limitations under the License.
 import ast
-from typing import List, Tuple
+from typing import List, Tuple, get_args
 
 from sympy import Symbol
 from sympy.logic.boolalg import Boolean
 
 from ..types import TType, TypeErrorException
 from . import Binding, Env, decompose_to_symbols, exceptions, translate_expression
+
+
+def _bit_names(ttype, base: str) -> List[str]:
+    """Names of the bits of a value of type ttype rooted at base (see translate_argument)"""
+    targs = get_args(ttype)
+    if len(targs) > 0:
+        names: List[str] = []
+        for ind, t in enumerate(targs):
+            names.extend(_bit_names(t, f"{base}.{ind}"))
+        return names
+    elif hasattr(ttype, "BIT_SIZE"):
+        return [f"{base}.{i}" for i in range(ttype.BIT_SIZE)]
+    return [base]
 
 
 def translate_statement(  # noqa: C901
@@ -81,6 +94,18 @@ def translate_statement(  # noqa: C901
             raise TypeErrorException(texp, ret_type)
 
         res = decompose_to_symbols(vexp, "_ret")
+
+        # A tuple-typed variable is a flat list of bits: name the return bits after the (nested)
+        # return type, as it is done for the declared return argument
+        ret_names = _bit_names(ret_type, "_ret")
+        if (
+            len(get_args(ret_type)) > 0
+            and isinstance(vexp, list)
+            and not any(isinstance(v, list) for v in vexp)
+            and len(ret_names) == len(vexp)
+        ):
+            res = list(zip(ret_names, vexp))
+
         env.bind(Binding("_ret", texp, [x[0] for x in res]))
         res = list(map(lambda x: (Symbol(x[0]), x[1]), res))
         return res, env
